@@ -154,7 +154,10 @@ Definition add_blob (b : blob) (d : db) : db :=
 Inductive op :=
 | OpPass (net : bool) (limit : Z)
 | OpClean (climit nlimit : Z)
-| OpAdd (b : blob).
+| OpAdd (b : blob)
+| OpDelete (hs : list N)      (* the user removes blobs through the API: blob_manager.delete_blobs(hs, delete_from_db=True) *)
+| OpStatus.                   (* a status read (get_space_used_mb / get_free_space_mb): no effect on the database;
+                                 the pass recomputes usage itself every time, the model has no cache *)
 
 (* a history: the deletion lists of every pass, in order, and the final state *)
 Fixpoint run (ops : list op) (d : db) : list (list N) * db :=
@@ -168,6 +171,17 @@ Fixpoint run (ops : list op) (d : db) : list (list N) * db :=
       let (tr, d2) := run r d1 in (dl1 :: dl2 :: tr, d2)
   | OpAdd b :: r =>
       let (tr, d2) := run r (add_blob b d) in (tr, d2)
+  | OpDelete hs :: r =>
+      let (tr, d2) := run r (remove_hashes hs d) in (tr, d2)
+  | OpStatus :: r => run r d
+  end.
+
+(* hashes the user removed himself during a history *)
+Fixpoint user_deleted (ops : list op) : list N :=
+  match ops with
+  | [] => []
+  | OpDelete hs :: r => hs ++ user_deleted r
+  | _ :: r => user_deleted r
   end.
 
 (* ---- quantities the theorems speak about ---- *)
